@@ -211,7 +211,8 @@ def _wrap_builtin(pyname, fn):
                 out = None
             return r
         except BaseException as e:
-            out = ["E", type(e).__name__]
+            from problog.errors import ProbLogError
+            out = ["E", type(e).__name__, isinstance(e, ProbLogError)]
             raise
         finally:
             if rec is not None and out is not None and len(rec["calls"]) < 400:
@@ -774,6 +775,8 @@ def coq_outcome(out):
             return "OArithError"
         if e == "UnifyError":
             return "OUnifyError"
+        if len(out) > 2 and out[2]:
+            return "OOtherPLError"
         return "(OStuck %s)" % vf.coq_string(e)
     raise _Skip()
 
@@ -825,6 +828,32 @@ def replay_all(ctx, table, results):
         ctx.broken.append("correspondence:builtin model vs implementation on %r" % (bm[i],))
 
 
+# ------------------------------------------------------------------------------------------------ corpus
+def corpus_replay(ctx):
+    """Minimal witnesses of past findings, replayed first (with recorders, so the modelled ones are also compared with Coq)."""
+    path = os.path.join(vf.CORPUS, "C27", "witnesses.json")
+    try:
+        with open(path) as f:
+            ws = json.load(f)["witnesses"]
+    except OSError:
+        return []
+    items = [{"src": w["program"], "record": True, "timeout": 10} for w in ws]
+    results = pl.pmap(run_program, items, chunksize=2)
+    still = 0
+    for w, r in zip(ws, results):
+        ctx.case(("corpus", w["program"]), True)
+        ctx.count("corpus:" + (r["out"][1] if r["out"][0] == "err" else "ok"))
+        if r["info"] is not None:
+            still += 1
+            klass = violation_class(r["info"])
+            ctx.violation("%s raised instead of a ProbLogError on `%s`: %s" % (r["info"][0], w["program"], r["info"][3]),
+                          {"program": w["program"], "class": klass, "exception": r["info"][0], "frame": r["info"][1],
+                           "builtin_frame": r["info"][2]}, klass=klass)
+    ctx.cov["corpus_witnesses"] = len(ws)
+    ctx.cov["corpus_witnesses_still_crashing"] = still
+    return results
+
+
 # ------------------------------------------------------------------------------------------------ main
 def run(ctx):
     ctx.cov["rule"] = ("malformed stream: for every builtin registered in the live DefaultEngine, N calls whose arguments are drawn from "
@@ -852,7 +881,9 @@ def run(ctx):
                              "registrations": len(table["registrations"]), "mode_letters": "".join(table["mode_letters"])}
     ctx.prove("C27/Props.v")
     live = compare_registrations(ctx, table)
+    corpus_results = corpus_replay(ctx)
     results, metas = malformed_stream(ctx, table, live)
+    results = corpus_results + results
     ctx.log("replaying recorded check_mode / modelled builtin calls through the Coq models")
     replay_all(ctx, table, results)
     mutation_stream(ctx)
